@@ -68,6 +68,10 @@ def make_case(rng, cid):
         s, k = pick(use if use != 'mixed' else 'listed')
         script = push_only(k) + bytes([OP_CHECKSIG if pat == 'checksig' else OP_CHECKSIGVERIFY]) + (bytes([OP_1]) if pat == 'checksigverify' else b'')
         stack = [s]
+        if rng.random() < 0.25:
+            script = push_only(s) + script
+            stack = []
+            pat += '-sig-in-script'
     elif pat == 'checksigadd':
         n = rng.choice([1, 2, 3])
         sel = [pick(use if use != 'mixed' else rng.choice(['listed', 'unlisted', 'wrong-sig-for-listed-key'])) for _ in range(n)]
@@ -92,6 +96,12 @@ def make_case(rng, cid):
             sg.reverse()
         script = push_num(m) + b''.join(push_only(k) for k in keys_in_script) + push_num(n) + bytes([OP_CHECKMULTISIG])
         stack = [b''] + sg
+        if rng.random() < 0.3:
+            # the signatures are pushed by the script itself (the usage doc/mock-values.md shows): in a legacy script the
+            # FindAndDelete / CONST_SCRIPTCODE rule of the real check then sees them in the scriptCode
+            script = bytes([OP_0]) + b''.join(push_only(x) for x in sg) + script
+            stack = []
+            pat = 'multisig-sigs-in-script'
     tx = None
     if rng.random() < 0.4:
         tx = c02.build_context(rng, sv)
@@ -244,7 +254,8 @@ def binary_worker(job):
                 part.count('binary', 'agree')
                 part.nontrivial.add(nt_hash('bin', c['script'], tuple(c['pairs'])))
         # malformed pair lists
-        for bad in ['0x1234', '0x12,0x34', '0x11:0x22:0x33', '0x11:0x22,0x33', 'abc', '0x11:0x22,0x33:0x44:0x55']:
+        for bad in ['0x1234', '0x12,0x34', '0x11:0x22:0x33', '0x11:0x22,0x33', 'abc', '0x11:0x22,0x33:0x44:0x55',
+                    '0x11:0x22,', ',0x11:0x22', '0x11:0x22,,0x33:0x44', ',', '0x11:0x22,0x33:0x44,', ',,']:
             r = proc.run([btcdeb, '--pretend-valid=' + bad, 'OP_1'], wd, mode='ptyin', timeout=30)
             part.evaluations += 1
             if r.abnormal:
@@ -254,6 +265,25 @@ def binary_worker(job):
             else:
                 part.count('binary', 'malformed:rejected')
                 part.nontrivial.add(nt_hash('bad', bad))
+        # an element with an empty half ("sig:" = the pair (sig, empty key), ":key" = (empty signature, key)): whichever way it is read,
+        # it is either refused or honoured - never silently dropped
+        for j in range(6):
+            sig = rb(rng, rng.choice([1, 8, 71]))
+            lst = rng.choice(['0x%s:', '0x11:0x22,0x%s:', '0x%s:,0x11:0x22']) % sig.hex()
+            script = bytes([OP_0, OP_CHECKSIG])
+            r = proc.run([btcdeb, '--pretend-valid=' + lst, '0x' + script.hex(), '0x' + sig.hex()], wd, mode='ptyin', timeout=30)
+            part.evaluations += 1
+            wit = dict(list=lst, script=script.hex(), run=r.brief())
+            if r.abnormal:
+                part.violation('half-empty-pair:' + r.crash_key('btcdeb'), wit)
+            elif b'parse error' in r.stderr and r.rc != 0:
+                part.count('binary', 'half-empty-pair:refused')
+                part.nontrivial.add(nt_hash('half', lst))
+            elif r.rc == 0 and r.stdout.decode('latin1') == '01\n':
+                part.count('binary', 'half-empty-pair:honoured')
+                part.nontrivial.add(nt_hash('half', lst))
+            else:
+                part.violation('half-empty-pair-neither-refused-nor-honoured', wit)
     finally:
         cleanup_scratch(wd)
     return part.dump()
@@ -281,7 +311,7 @@ def main():
              'listed pairs, a wrong signature for a listed key, a listed signature for another key, unlisted pairs and mixtures; with and without a transaction; base / v0 / tapscript (incl. budgets 49/50); every case run with and without the option; '
              'a sample through the real binary plus malformed lists. non-trivial = distinct case whose trace matched the mock semantics, or whose with/without traces were identical (non-interference)',
         assumptions=['a signature other than S offered for a listed key P: normal evaluation and plain failure are both accepted (neither is "accepted on the strength of the option")',
-                     'malformed = an element without a colon or with two colons; empty fields and trailing commas are not judged'],
+                     'malformed = an element without a colon or with two colons, an empty element (leading, trailing or doubled comma, empty list); an element with one empty half ("sig:") must be refused or honoured as the pair with the empty byte string'],
         min_events=300)
 
 
